@@ -2476,12 +2476,13 @@ PROPS = {
     'C11': {
         'run': run_C11,
         'pinned': ['C11_shift_per_channel', 'C11_fill_per_channel', 'C11_channel_projection', 'C11_masked_untouched',
-                   'C11_fft_per_channel', 'C11_instants_data_independent'],
-        'unproved': ['the end-to-end statement "n-channel run projected on channel c = single-channel run" is assembled from the stage lemmas '
-                     'by the twin comparison on every trace; it is not a single Coq theorem',
+                   'C11_fft_per_channel', 'C11_instants_data_independent', 'C11_fast_in_projection_R', 'C11_sinc_in_projection_R'],
+        'unproved': ['the end-to-end statement "n-channel run projected on channel c = single-channel run" is a theorem for FastFixedIn and '
+                     'SincFixedIn (ideal arithmetic, calls without a mask; the stream theorems of C05 give the same for FastFixedOut and the FFT '
+                     'types channel by channel); with masks and in floating point it is assembled from the stage lemmas by the twin comparison',
                      'FFT types: the shared scratch buffers are harmless because the spectral core is a pure function of its block (checked on every run)'],
         'assumptions': ['the per-channel structure of the model transcribes the loops of the code; tied by bit-exact correspondence on 1..8 channels with sentinels'],
-        'trusted_base': ['closed under the global context (no axioms)'],
+        'trusted_base': ['stage theorems: closed under the global context (no axioms); the two end-to-end projection theorems: Reals axioms'],
     },
     'C09': {
         'run': run_C09,
